@@ -797,3 +797,94 @@ Lemma guarded_prog2_ok :
   o_funs (transl (fun _ => srev) guarded_prog2) =
     [(txt "fn"%string, [NDecl n_a 0; NDecl n_b 1; NIf [[NAssign n_a]; [NAssign n_b; NAssign n_a]]])].
 Proof. split; vm_compute; reflexivity. Qed.
+
+(* ================================================================ the rank oracles reach every order *)
+(* every iteration order of a finite set is [sigma_rank o] for some o (o = that order) *)
+Lemma index_of_lt x o : In x o -> (index_of x o < List.length o)%nat.
+Proof.
+  induction o as [|y r IH]; cbn; [tauto|]. intros H.
+  destruct (text_eqb x y) eqn:E; [lia|].
+  destruct H as [H|H]; [subst; rewrite text_eqb_refl in E; discriminate|]. apply IH in H. lia.
+Qed.
+
+Lemma index_of_inj x y o : In x o -> index_of x o = index_of y o -> x = y.
+Proof.
+  induction o as [|z r IH]; cbn; [tauto|]. intros H.
+  destruct (text_eqb x z) eqn:Ex; destruct (text_eqb y z) eqn:Ey; intros E; try discriminate.
+  - apply text_eqb_eq in Ex, Ey. congruence.
+  - destruct H as [H|H]; [subst; rewrite text_eqb_refl in Ex; discriminate|].
+    apply IH; [exact H|lia].
+Qed.
+
+Definition rle (o : list ident) (a b : ident) : Prop := (index_of a o <= index_of b o)%nat.
+
+Lemma insert_by_sorted o x l :
+  StronglySorted (rle o) l -> StronglySorted (rle o) (insert_by (fun y => index_of y o) x l).
+Proof.
+  induction l as [|y r IH]; cbn; intros H.
+  - constructor; constructor.
+  - destruct (index_of x o <=? index_of y o)%nat eqn:E.
+    + apply Nat.leb_le in E. constructor; [exact H|]. constructor; [exact E|].
+      inversion H as [|? ? _ Hall]; subst.
+      eapply Forall_impl; [|exact Hall]. intros z Hz. unfold rle in *. lia.
+    + apply Nat.leb_gt in E. inversion H as [|? ? Hr Hall]; subst.
+      constructor; [auto|].
+      eapply Permutation_Forall; [symmetry; apply insert_by_perm|].
+      constructor; [unfold rle; lia|assumption].
+Qed.
+
+Lemma sort_by_sorted o l : StronglySorted (rle o) (sort_by (fun y => index_of y o) l).
+Proof. induction l as [|x r IH]; cbn; [constructor|apply insert_by_sorted; exact IH]. Qed.
+
+Lemma rank_sorted_unique o l1 : forall l2,
+  (forall x, In x l1 -> In x o) ->
+  StronglySorted (rle o) l1 -> StronglySorted (rle o) l2 -> Permutation l1 l2 -> l1 = l2.
+Proof.
+  induction l1 as [|x r1 IH]; intros l2 Hin H1 H2 HP.
+  - apply Permutation_nil in HP. auto.
+  - destruct l2 as [|y r2]; [symmetry in HP; apply Permutation_nil in HP; discriminate|].
+    inversion H1 as [|? ? Hr1 Ha1]; subst. inversion H2 as [|? ? Hr2 Ha2]; subst.
+    assert (x = y) as ->.
+    { assert (In x (y :: r2)) as Ix by (eapply Permutation_in; [exact HP|left; reflexivity]).
+      assert (In y (x :: r1)) as Iy by (eapply Permutation_in; [symmetry; exact HP|left; reflexivity]).
+      destruct Ix as [->|Ix]; [reflexivity|]. destruct Iy as [->|Iy]; [reflexivity|].
+      rewrite Forall_forall in Ha1, Ha2. specialize (Ha1 y Iy). specialize (Ha2 x Ix). unfold rle in *.
+      apply (index_of_inj x y o); [apply Hin; left; reflexivity|lia]. }
+    f_equal. apply IH; auto.
+    + intros z Hz. apply Hin. right. exact Hz.
+    + eapply Permutation_cons_inv; exact HP.
+Qed.
+
+Lemma index_of_cons_other h t a : a <> h -> index_of a (h :: t) = S (index_of a t).
+Proof.
+  intros Hne. cbn. destruct (text_eqb a h) eqn:E; [apply text_eqb_eq in E; congruence|reflexivity].
+Qed.
+
+Lemma sorted_lift h t v : ~ In h t -> (forall a, In a v -> In a t) ->
+  StronglySorted (rle t) v -> StronglySorted (rle (h :: t)) v.
+Proof.
+  intros Hnotin. induction v as [|a v IHv]; intros Hsub Hs; [constructor|].
+  inversion Hs as [|? ? Hs' Hall]; subst. constructor.
+  - apply IHv; [intros b Hb; apply Hsub; right; exact Hb|exact Hs'].
+  - rewrite Forall_forall in *. intros b Hb. specialize (Hall b Hb). unfold rle in *.
+    assert (a <> h) by (intros ->; apply Hnotin, Hsub; left; reflexivity).
+    assert (b <> h) by (intros ->; apply Hnotin, Hsub; right; exact Hb).
+    rewrite !index_of_cons_other by assumption. lia.
+Qed.
+
+Lemma self_sorted o : NoDup o -> StronglySorted (rle o) o.
+Proof.
+  induction o as [|h t IH]; intros HN; [constructor|].
+  inversion HN as [|? ? Hnotin HNt]; subst. specialize (IH HNt).
+  constructor.
+  - apply sorted_lift; auto.
+  - apply Forall_forall. intros b _. unfold rle. cbn. rewrite text_eqb_refl. lia.
+Qed.
+
+(* every iteration order [l'] of the set with elements [l] is the one [sigma_rank l'] produces *)
+Lemma sigma_rank_complete l l' : NoDup l' -> Permutation l' l -> sigma_rank l' l = l'.
+Proof.
+  intros HN HP. unfold sigma_rank. symmetry.
+  apply (rank_sorted_unique l'); [auto|apply self_sorted, HN|apply sort_by_sorted|].
+  rewrite sort_by_perm. exact HP.
+Qed.
